@@ -7,7 +7,7 @@ from ..simlib import St, all_outs, manifest_step
 from ..logmodel import parse_build_log
 
 MANIFEST = dict(
-    engine="nsim", category="exploration",
+    engine="nsim+e2e", category="exploration",
     technique="runtime monitoring: real Cleaner on a virtual disk with every removal recorded; oracle = set model of the clean scope "
               "(allowed / required) computed from the scenario, followed by a rebuild compared with the clean build",
     text="Generated graphs (multi-output statements, depfiles and rspfiles, phony aliases whose names are also existing files, generator "
@@ -22,6 +22,9 @@ MANIFEST = dict(
 
 def setup():
     simlib.nsim_bin()
+    from .. import e2e
+    e2e.ninja_bin()
+    e2e.vtool_bin()
 
 
 def dyndep_files_not_loadable(sc, world):
@@ -186,6 +189,10 @@ def run(ctx):
         except model.Invalid:
             ctx.inconclusive += 1
             ctx.count("inconclusive_scenario_rejected_by_model")
+    # the real binary on a long build log (recompaction happens inside the cleandead invocation itself)
+    from .. import e2e
+    seeds = [rng.randint(1, 10 ** 9) for _ in range(16 if quick else 300)]
+    e2e.parallel(lambda sd: e2e.c18_dead_case(ctx, sd), seeds)
     ctx.rule = ("graphs of 2..8 statements in never-built/built/half-built/partly-deleted states + look-alike files x clean scope (all, -g, "
                 "1..3 targets, 1..3 rules incl. 'phony', cleandead after dropping/renaming a statement, 25%% dry run); distinct_nontrivial "
                 "= distinct scenarios in which at least one existing file was in scope")
